@@ -478,7 +478,7 @@ pub fn psig(seed: u64, thorough: bool) -> Vec<Value> {
 
 // ====================================================================== Pedersen (C09)
 
-trait Grp: Group<Scalar = Scalar> + zkchannels_crypto::SerializeElement + Copy {
+trait Grp: Group<Scalar = Scalar> + group::GroupEncoding + zkchannels_crypto::SerializeElement + Copy {
     const NAME: &'static str;
 }
 impl Grp for G1Projective { const NAME: &'static str = "G1"; }
